@@ -2,18 +2,20 @@
 """muttriage.py: writes mutation/TRIAGE.md and prints the summary of the mutation sweep.
 Every mutant that passed the pinned suite AND the quick checks gets a class and a reason; the reasons are
 hand-written (mutation/reasons.json: "file:line" -> reason, or mutant id -> [class, reason])."""
-import json, collections, os
+import json, collections, os, sys
 V = os.path.dirname(os.path.dirname(os.path.abspath(__file__)))
-R = json.load(open(os.path.join(V, 'mutation', 'reasons.json')))
+FAM = sys.argv[1] if len(sys.argv) > 1 else '1'     # 1: first operator family (M...), 2: second family (N...)
+SFX = '' if FAM == '1' else '_2'
+R = json.load(open(os.path.join(V, 'mutation', 'reasons%s.json' % ('' if FAM == '1' else '2'))))
 recheck = {}
-p2 = os.path.join(V, 'mutation', 'stage2b.ndjson')
+p2 = os.path.join(V, 'mutation', 'stage2b%s.ndjson' % SFX)
 if os.path.exists(p2):
     for l in open(p2):
         m = json.loads(l); recheck[m['id']] = m['verdict']
-s1 = collections.Counter(json.loads(l)['stage1'] for l in open(os.path.join(V, 'mutation', 'stage1.ndjson')))
+s1 = collections.Counter(json.loads(l)['stage1'] for l in open(os.path.join(V, 'mutation', 'stage1%s.ndjson' % SFX)))
 c = collections.Counter(); killed = collections.Counter(); unk = []
 rows = []
-for l in open(os.path.join(V, 'mutation', 'stage2.ndjson')):
+for l in open(os.path.join(V, 'mutation', 'stage2%s.ndjson' % SFX)):
     m = json.loads(l)
     if m['verdict'].startswith('killed'):
         killed[m['verdict'].split('=')[1]] += 1
@@ -34,9 +36,9 @@ for l in open(os.path.join(V, 'mutation', 'stage2.ndjson')):
     esc = lambda t: t[:40].replace('|', '\\|').replace('\n', ' ')
     rows.append('| %s | %s:%d %s | `%s` -> `%s` | %s | %s |' % (m['id'], m['file'], m['line'], m['func'], esc(m['orig']), esc(m['repl']), cls, why.replace('|', '\\|')))
 head = ['# Mutation sweep: the mutants that passed the pinned suite AND the quick checks, one by one', '',
-        'Source: `mutation/stage2.ndjson` (verdicts of `tools/mutsweep.py check`), re-runs against the final checks in `mutation/stage2b.ndjson`.',
+        'Source: `mutation/stage2%s.ndjson` (verdicts of `tools/mutsweep.py check`), re-runs against the final checks in `mutation/stage2b%s.ndjson`.' % (SFX, SFX),
         'Classes: **EQ** no behaviour inside the property changes (reason given); **N16** an integer conversion narrowed through a 16/32-bit type whose value always fits (operator "narrow", applied blindly to every conversion); **FIXED** a real miss of the checks as they stood, killed after they were strengthened; **BIG** real, but needs an object of 2 GiB and more.', '',
         'stage 1: %s; stage 2: killed %d, passed the checks %d (%s)' % (dict(s1), sum(killed.values()), sum(c.values()), dict(c)), '',
         '| mutant | where | change | class | why |', '|---|---|---|---|---|']
-open(os.path.join(V, 'mutation', 'TRIAGE.md'), 'w').write('\n'.join(head + rows) + '\n')
+open(os.path.join(V, 'mutation', 'TRIAGE%s.md' % SFX), 'w').write('\n'.join(head + rows) + '\n')
 print('stage1', dict(s1)); print('killed by', dict(killed)); print('passed', dict(c)); print('unclassified', unk)
